@@ -88,6 +88,7 @@ type model struct {
 	set  map[cedar.PolicyID]mpol
 	copy map[cedar.PolicyID]mpol // live copy taken by Map()/Collect(All()), nil if none
 	seq  map[cedar.PolicyID]mpol // contents when the kept All() sequence was obtained, nil if none
+	kept string                  // the JSON + Cedar encodings handed out by the "keep encodings" op ("" if none)
 }
 
 func (m *model) key() string {
@@ -111,6 +112,9 @@ func (m *model) key() string {
 	if m.seq != nil {
 		sb.WriteString("|seq:")
 		wr(m.seq)
+	}
+	if m.kept != "" {
+		sb.WriteString("|kept:" + m.kept)
 	}
 	return sb.String()
 }
@@ -175,6 +179,7 @@ func init() {
 		op{name: "mutate(copy)", kind: 7},
 		op{name: "UnmarshalJSON(fixed doc into self)", kind: 8},
 		op{name: "seq=All() kept for later", kind: 9},
+		op{name: "js,txt=MarshalJSON(),MarshalCedar() kept for later", kind: 10},
 	)
 }
 
@@ -220,6 +225,8 @@ type exec struct {
 	ps   *cedar.PolicySet
 	cp   cedar.PolicyMap
 	seq  iter.Seq2[cedar.PolicyID, *cedar.Policy] // an All() sequence obtained earlier from ps
+	kJS  []byte                                   // encodings handed out earlier (the very slices that were returned)
+	kTxt []byte
 	m    model
 	pool [nKinds]*cedar.Policy
 	bad  bool
@@ -306,6 +313,9 @@ func (e *exec) observe(after string) {
 	}
 	if e.cp != nil {
 		chk("copy", e.cp, m.copy, false)
+	}
+	if e.m.kept != "" && string(e.kJS)+"\x00"+string(e.kTxt) != e.m.kept {
+		e.fail("returned-encoding-changed-later:"+after, e.m.kept, string(e.kJS)+"\x00"+string(e.kTxt))
 	}
 	if e.seq != nil {
 		// a sequence obtained earlier and iterated now: either the contents when it was
@@ -488,6 +498,14 @@ func (e *exec) apply(o op) {
 	case 9:
 		e.seq = ps.All()
 		m.seq = cloneM(m.set)
+	case 10:
+		js, err := ps.MarshalJSON()
+		if err != nil {
+			e.fail("MarshalJSON-error", "no error", err.Error())
+			return
+		}
+		e.kJS, e.kTxt = js, ps.MarshalCedar()
+		m.kept = string(e.kJS) + "\x00" + string(e.kTxt) // a copy: strings are immutable
 	}
 }
 
